@@ -36,6 +36,7 @@ type GenOpts struct {
 	BiasMoves bool
 	Counts    bool // readdir with count limits (C13)
 	NoAttrs   bool
+	Late      bool // C02: a handle left idle while another handle rewrites the file, then written and closed
 	Twins     bool // batched members all carry ONE size, mode and modification time: names re-used after a move or delete get records whose metadata is identical to the earlier entry's, only content and position differ
 	Exotic    bool // unusual names, path spellings, owners, timestamps, permission values, deeper trees
 }
@@ -403,6 +404,22 @@ func (g *Gen) next(t Tree) Op {
 				continue
 			}
 			ent := t[e]
+			if g.o.Late && ent.Kind == "f" && r.Intn(4) == 0 && !(hasCodecSuffix(e) && !g.plainCodec()) {
+				// two handles on one file, the first one idle until the second has written and closed
+				fl := []int{os.O_RDWR, os.O_WRONLY}[r.Intn(2)]
+				if r.Intn(3) == 0 {
+					fl |= os.O_APPEND
+				}
+				if r.Intn(4) == 0 {
+					fl |= os.O_CREATE
+				}
+				op := Op{K: "latewrite", A: e, Flag: fl, Perm: 0o644, N: []int{0, 11, 513, 3000}[r.Intn(4)]}
+				g.data(&op)
+				if op.Len == 0 {
+					op.Len = 1 + r.Intn(40)
+				}
+				return op
+			}
 			if r.Intn(3) == 0 {
 				if ent.Kind == "f" && hasCodecSuffix(e) && !g.plainCodec() {
 					continue
